@@ -25,7 +25,12 @@ export SV.Gen.Guards (check_alpha check_huber_param quantile_score_alpha qis_lev
   roc_fcst_range roc_thresholds_range roc_thresholds_monotonic discretise_abs_tolerance binary_discretise_monotonic
   cdf_round_precision cdf_observed_precision iso_quantile_level iso_weight_positive iso_bootstraps iso_confidence_level
   fss_window dm_confidence_level dm_h_integer dm_h_positive dm_h_below_length dm_stat_h risk_fcst_range
-  risk_prob_thresholds risk_matrix_prob_thresholds risk_scaling_prob_thresholds risk_assessment_weights isInf)
+  risk_prob_thresholds risk_matrix_prob_thresholds risk_scaling_prob_thresholds risk_assessment_weights isInf
+  fill_cdf_method fill_cdf_min_nonnan_other fill_cdf_min_nonnan_linear cdf_decreasing_tolerance crps_cdf_fcst_fill_method
+  crps_cdf_weight_fill_method crps_cdf_integration_method crps_cdf_threshold_count crps_cdf_brier_fcst_fill_method
+  crps_ensemble_method tail_tw_crps_tail brier_fcst_range_dataset dm_method dm_statistic_distribution
+  risk_threshold_assignment risk_scaling_min risk_scaling_rows risk_scaling_columns risk_assessment_weights_count
+  firm_threshold_count)
 end G
 
 /-- reduce a translated guard on finite arguments to a proposition over rationals, then decide the logic -/
@@ -35,7 +40,7 @@ macro "guard_iff" : tactic => `(tactic|
       Bool.not_eq_eq_eq_not, Bool.not_true, Bool.not_false, decide_eq_true_eq, decide_eq_false_iff_not, Bool.and_eq_false_iff,
       Bool.or_eq_false_iff, Bool.true_and, Bool.false_and, Bool.false_eq_true, Bool.true_or, Bool.false_or, true_and, false_and,
       Open01, Positive, Nonneg, Levels, NotAbove, StrictlyBelow, Closed01Range, Open01Range, NonDecreasing, Window, Horizon,
-      AtLeastOne, Trapezoid]
+      AtLeastOne, Trapezoid, AtLeast, Nonpos]
    <;> grind))
 
 variable (x y a b c d : Rat)
@@ -202,6 +207,82 @@ theorem firm_threshold_assignment_iff (s : String) :
 /-- every generated guard raises ValueError or its subclass DimensionError -/
 theorem exceptions_documented :
     SV.Gen.Guards.exceptions.all (fun p => p.2 == "ValueError" || p.2 == "DimensionError") = true := by decide +kernel
+
+/-! ## 5. Guards added after the guard-site audit (tools/c20_audit.py, notes/C20.md) -/
+
+/-- `fill_cdf` (and `add_thresholds`, which passes `min_nonnan` on): for EVERY method one of the two `min_nonnan` guards
+    fires exactly when `min_nonnan` is below the documented minimum - 2 for "linear", 1 for "step", "forward", "backward"
+    (and any other string, which the method guard rejects first). -/
+theorem fill_cdf_min_nonnan_iff (m : String) :
+    (G.fill_cdf_min_nonnan_other (fin x) m || G.fill_cdf_min_nonnan_linear (fin x) m) = true ↔ ¬ MinNonnan m x := by
+  unfold SV.Gen.Guards.fill_cdf_min_nonnan_other SV.Gen.Guards.fill_cdf_min_nonnan_linear MinNonnan
+  by_cases h : m = "linear" <;> simp [h, Fl.lt_fin]
+theorem fill_cdf_min_nonnan_other_iff (m : String) :
+    G.fill_cdf_min_nonnan_other (fin x) m = true ↔ (m ≠ "linear" ∧ x < 1) := by
+  unfold SV.Gen.Guards.fill_cdf_min_nonnan_other
+  by_cases h : m = "linear" <;> simp [h, Fl.lt_fin]
+theorem fill_cdf_min_nonnan_linear_iff (m : String) :
+    G.fill_cdf_min_nonnan_linear (fin x) m = true ↔ (m = "linear" ∧ x < 2) := by
+  unfold SV.Gen.Guards.fill_cdf_min_nonnan_linear
+  by_cases h : m = "linear" <;> simp [h, Fl.lt_fin]
+/-- the boundary for each of the four methods: the minimum itself is accepted, one below is rejected -/
+theorem fill_cdf_min_nonnan_boundary :
+    (["step", "forward", "backward"].all fun m =>
+        (G.fill_cdf_min_nonnan_other (fin 0) m || G.fill_cdf_min_nonnan_linear (fin 0) m)
+        && !(G.fill_cdf_min_nonnan_other (fin 1) m || G.fill_cdf_min_nonnan_linear (fin 1) m)) = true
+    ∧ (G.fill_cdf_min_nonnan_other (fin 1) "linear" || G.fill_cdf_min_nonnan_linear (fin 1) "linear") = true
+    ∧ (G.fill_cdf_min_nonnan_other (fin 2) "linear" || G.fill_cdf_min_nonnan_linear (fin 2) "linear") = false := by
+  decide +kernel
+
+/-- enumerated string options: rejected ↔ not one of the documented spellings -/
+theorem fill_cdf_method_iff (s : String) : G.fill_cdf_method s = true ↔ ¬ OneOf fillMethods s := by
+  unfold SV.Gen.Guards.fill_cdf_method; simp [OneOf, fillMethods]
+theorem crps_cdf_fcst_fill_method_iff (s : String) : G.crps_cdf_fcst_fill_method s = true ↔ ¬ OneOf fillMethods s := by
+  unfold SV.Gen.Guards.crps_cdf_fcst_fill_method; simp [OneOf, fillMethods]
+theorem crps_cdf_brier_fcst_fill_method_iff (s : String) :
+    G.crps_cdf_brier_fcst_fill_method s = true ↔ ¬ OneOf fillMethods s := by
+  unfold SV.Gen.Guards.crps_cdf_brier_fcst_fill_method; simp [OneOf, fillMethods]
+/-- the fill method of the threshold weight is only validated when a weight is supplied -/
+theorem crps_cdf_weight_fill_method_iff (w : Bool) (s : String) :
+    G.crps_cdf_weight_fill_method w s = true ↔ (w = true ∧ ¬ OneOf fillMethods s) := by
+  unfold SV.Gen.Guards.crps_cdf_weight_fill_method; cases w <;> simp [OneOf, fillMethods]
+theorem crps_cdf_integration_method_iff (s : String) :
+    G.crps_cdf_integration_method s = true ↔ ¬ OneOf ["exact", "trapz"] s := by
+  unfold SV.Gen.Guards.crps_cdf_integration_method; simp [OneOf]
+theorem crps_ensemble_method_iff (s : String) : G.crps_ensemble_method s = true ↔ ¬ OneOf ["ecdf", "fair"] s := by
+  unfold SV.Gen.Guards.crps_ensemble_method; simp [OneOf]
+theorem tail_tw_crps_tail_iff (s : String) : G.tail_tw_crps_tail s = true ↔ ¬ OneOf ["upper", "lower"] s := by
+  unfold SV.Gen.Guards.tail_tw_crps_tail; simp [OneOf]
+theorem dm_method_iff (s : String) : G.dm_method s = true ↔ ¬ OneOf ["HLN", "HG"] s := by
+  unfold SV.Gen.Guards.dm_method; simp [OneOf]
+theorem dm_statistic_distribution_iff (s : String) :
+    G.dm_statistic_distribution s = true ↔ ¬ OneOf ["normal", "t"] s := by
+  unfold SV.Gen.Guards.dm_statistic_distribution; simp [OneOf]
+theorem risk_threshold_assignment_iff (s : String) :
+    G.risk_threshold_assignment s = true ↔ ¬ OneOf ["upper", "lower"] s := by
+  unfold SV.Gen.Guards.risk_threshold_assignment; simp [OneOf]
+
+/-- tolerance of `decreasing_cdfs`: not negative -/
+theorem cdf_decreasing_tolerance_iff : G.cdf_decreasing_tolerance (fin x) = true ↔ ¬ Nonneg x := by
+  unfold SV.Gen.Guards.cdf_decreasing_tolerance; guard_iff
+/-- `crps_cdf` needs at least two thresholds, FIRM at least one category threshold -/
+theorem crps_cdf_threshold_count_iff : G.crps_cdf_threshold_count (fin x) = true ↔ ¬ AtLeast 2 x := by
+  unfold SV.Gen.Guards.crps_cdf_threshold_count; guard_iff
+theorem firm_threshold_count_iff : G.firm_threshold_count (fin x) = true ↔ ¬ AtLeast 1 x := by
+  unfold SV.Gen.Guards.firm_threshold_count; guard_iff
+/-- probability forecasts given as a Dataset: inside [0, 1] -/
+theorem brier_fcst_range_dataset_iff : G.brier_fcst_range_dataset (fin a) (fin b) = true ↔ ¬ Closed01Range a b := by
+  unfold SV.Gen.Guards.brier_fcst_range_dataset; guard_iff
+/-- warning scaling matrix: entries not negative, rows not decreasing, columns not increasing, enough assessment weights -/
+theorem risk_scaling_min_iff : G.risk_scaling_min (fin x) = true ↔ ¬ Nonneg x := by
+  unfold SV.Gen.Guards.risk_scaling_min; guard_iff
+theorem risk_scaling_rows_iff : G.risk_scaling_rows (fin x) = true ↔ ¬ Nonneg x := by
+  unfold SV.Gen.Guards.risk_scaling_rows; guard_iff
+theorem risk_scaling_columns_iff : G.risk_scaling_columns (fin x) = true ↔ ¬ Nonpos x := by
+  unfold SV.Gen.Guards.risk_scaling_columns; guard_iff
+theorem risk_assessment_weights_count_iff :
+    G.risk_assessment_weights_count (fin a) (fin b) = true ↔ ¬ NotAbove b a := by
+  unfold SV.Gen.Guards.risk_assessment_weights_count; guard_iff
 
 /-! ## Array-valued parameters: the function raises iff the pointwise guard fires somewhere -/
 
